@@ -118,6 +118,81 @@ theorem applyAll_declared_wf : ∀ (ops : List DeclOp) {c c' : Cached}, c.iface.
     · rename_i c1 h1
       exact applyAll_declared_wf ops (apply_declOp_wf hwf hc o h1) (Cached.apply_coherent hc _ h1) h
 
+/-! ### declared methods carry the declared type lists -/
+
+/-- the method is what `Method(name, ''.join(ins), ''.join(outs))` + `addMethod` leave: rendered signatures
+and one argument per complete type -/
+def Method.TyDeclared (m : Method) : Prop :=
+  ∃ ins outs : List Ty, m.sigIn = renderAll ins ∧ m.sigOut = renderAll outs ∧
+    m.nargs = ins.length ∧ m.nret = outs.length
+
+theorem apply_declOp_ty {c c' : Cached} (hty : ∀ m ∈ c.iface.methods, m.TyDeclared) (hc : c.Coherent)
+    (hwf : c.iface.WF) (o : DeclOp) (h : c.apply o.toOp = .ok c') : ∀ m ∈ c'.iface.methods, m.TyDeclared := by
+  cases o with
+  | addMethod n ins outs =>
+    simp only [DeclOp.toOp, Cached.apply, Interface.addMethod, Method.new, countCompleteTypes_renderAll,
+      liftSplit] at h
+    simp only [if_true] at h
+    cases h
+    intro m hm
+    rcases dset_mem hm with hm | rfl
+    · exact hty m hm
+    · exact ⟨ins, outs, rfl, rfl, rfl, rfl⟩
+  | addSignal n ts =>
+    simp only [DeclOp.toOp, Cached.apply, Interface.addSignal, Signal.new, countCompleteTypes_renderAll,
+      liftSplit] at h
+    simp only [if_true] at h
+    cases h
+    exact hty
+  | addProperty n ty r w e =>
+    simp only [DeclOp.toOp, Cached.apply, Interface.addProperty] at h
+    cases h
+    exact hty
+  | delMethod n =>
+    simp only [DeclOp.toOp, Cached.apply, Interface.delMethod] at h
+    cases hd : ddel Method.name c.iface.methods n with
+    | none => simp [hd] at h
+    | some d =>
+      simp only [hd] at h
+      cases h
+      exact fun m hm => hty m ((ddel_nodup hwf.mnames hd).2 m hm)
+  | delSignal n =>
+    simp only [DeclOp.toOp, Cached.apply, Interface.delSignal] at h
+    cases hd : ddel Signal.name c.iface.signals n with
+    | none => simp [hd] at h
+    | some d => simp only [hd] at h; cases h; exact hty
+  | delProperty n =>
+    simp only [DeclOp.toOp, Cached.apply, Interface.delProperty] at h
+    cases hd : ddel Property.name c.iface.properties n with
+    | none => simp [hd] at h
+    | some d => simp only [hd] at h; cases h; exact hty
+  | getXml =>
+    simp only [DeclOp.toOp, Cached.apply] at h
+    cases hg : c.getXml with
+    | error e => simp [hg] at h
+    | ok r =>
+      obtain ⟨x, c''⟩ := r
+      simp only [hg] at h
+      cases h
+      rw [(Cached.getXml_coherent hc hg).2]
+      exact hty
+
+theorem applyAll_declared_ty : ∀ (ops : List DeclOp) {c c' : Cached}, (∀ m ∈ c.iface.methods, m.TyDeclared) →
+    c.iface.WF → c.Coherent → c.applyAll (ops.map DeclOp.toOp) = .ok c' → ∀ m ∈ c'.iface.methods, m.TyDeclared
+  | [], c, c', hty, _, _, h => by cases h; exact hty
+  | o :: ops, c, c', hty, hwf, hc, h => by
+    simp only [List.map_cons, Cached.applyAll] at h
+    split at h
+    · cases h
+    · rename_i c1 h1
+      exact applyAll_declared_ty ops (apply_declOp_ty hty hc hwf o h1) (apply_declOp_wf hwf hc o h1)
+        (Cached.apply_coherent hc _ h1) h
+
+theorem declare_ty {name : Str} {ops : List DeclOp} {c : Cached} (h : declare name ops = .ok c) :
+    ∀ m ∈ c.iface.methods, m.TyDeclared :=
+  applyAll_declared_ty ops (by intro m hm; simp [Cached.new, Interface.new] at hm) (Interface.new_wf name)
+    (Cached.new_coherent name) h
+
 /-- an interface declared through the API is well formed and its cache coherent -/
 theorem declare_wf {name : Str} {ops : List DeclOp} {c : Cached} (h : declare name ops = .ok c) :
     c.iface.WF ∧ c.Coherent :=
